@@ -2,13 +2,18 @@
 C10 / E2 — executable semantics of the amd64 subset used by gfp.s.
 
 Machine words are `Nat`s below 2^64 (explicit `% 2^64`, so that `omega` can
-reason about carries). The state has the 13 registers of the listing, the
-carry flag (as 0/1), the zero flag (defined only right after CMPB), the local
-frame (8-byte words), and a memory that is only accessible through the three
-pointer arguments c, a, b (4 words each; the pointers may alias, as they do in
-the Go callers). Package variables p2 / np / hasBMI2 are a read-only
-environment. Everything else — unaligned or out-of-block access, write to a
-global, jump on an undefined flag, running off the end — is an explicit error.
+reason about carries). A register holds either a word or an *abstract pointer*
+to one of the three argument blocks c, a, b (4 words each): the code may load a
+pointer from its argument slot and use it as the base of `off(reg)` with
+off ∈ {0,8,16,24}; any arithmetic on a pointer is an error, so behaviour cannot
+depend on where the blocks live. The Go callers pass aliased pointers
+(`gfpMul(c, c, b)`, `gfpAdd(t, t, t)`); `alias` maps each argument slot to the
+storage block it denotes, and every access goes through it.
+The state also has the carry flag (0/1), the zero flag (defined only right
+after CMPB) and the local frame (8-byte words). Package variables p2 / np /
+hasBMI2 are a read-only environment. Everything else — unaligned or
+out-of-block access, a write to a global or an argument slot, a jump on an
+undefined flag, running off the end — is an explicit error.
 -/
 import DosModel.Model.AsmSyntax
 
@@ -16,27 +21,36 @@ namespace Dos.Asm
 
 abbrev W64 : Nat := 18446744073709551616   -- 2^64
 
-structure Regs where
-  ax : Nat
-  bx : Nat
-  dx : Nat
-  di : Nat
-  si : Nat
-  r8 : Nat
-  r9 : Nat
-  r10 : Nat
-  r11 : Nat
-  r12 : Nat
-  r13 : Nat
-  r14 : Nat
-  r15 : Nat
+/-- argument slots = storage blocks -/
+inductive Blk
+  | c | a | b
+  deriving DecidableEq, Repr
 
-def Regs.get (s : Regs) : Reg → Nat
+inductive Val
+  | word (n : Nat)
+  | ptr (b : Blk)
+
+structure Regs where
+  ax : Val
+  bx : Val
+  dx : Val
+  di : Val
+  si : Val
+  r8 : Val
+  r9 : Val
+  r10 : Val
+  r11 : Val
+  r12 : Val
+  r13 : Val
+  r14 : Val
+  r15 : Val
+
+def Regs.get (s : Regs) : Reg → Val
   | .AX => s.ax | .BX => s.bx | .DX => s.dx | .DI => s.di | .SI => s.si
   | .R8 => s.r8 | .R9 => s.r9 | .R10 => s.r10 | .R11 => s.r11
   | .R12 => s.r12 | .R13 => s.r13 | .R14 => s.r14 | .R15 => s.r15
 
-def Regs.set (s : Regs) (r : Reg) (v : Nat) : Regs :=
+def Regs.set (s : Regs) (r : Reg) (v : Val) : Regs :=
   match r with
   | .AX => { s with ax := v } | .BX => { s with bx := v } | .DX => { s with dx := v }
   | .DI => { s with di := v } | .SI => { s with si := v }
@@ -53,47 +67,43 @@ structure Env where
 structure State where
   regs : Regs
   cf : Nat                  -- carry flag, 0 or 1
-  zf : Option Bool          -- zero flag; `none` = not defined by the last flag-setting instruction we model
-  frame : List Nat          -- local frame, one entry per 8 bytes
-  mem : Nat → Nat           -- byte address (multiple of 8 relative to a block start) ↦ 64-bit word
-  cPtr : Nat
-  aPtr : Nat
-  bPtr : Nat
+  zf : Option Bool          -- zero flag; `none` = not defined by an instruction we model
+  frame : List Val          -- local frame, one entry per 8 bytes
+  alias : Blk → Blk         -- which storage block each argument pointer denotes
+  mem : Blk → Nat → Nat     -- storage block ↦ word index (0..3) ↦ 64-bit word
 
 inductive Outcome
   | ok (s : State)
   | err (msg : String)
 
-/-- an address is accessible iff it is word `i < 4` of one of the three argument blocks -/
-def inBlock (ptr addr : Nat) : Bool :=
-  addr == ptr || addr == ptr + 8 || addr == ptr + 16 || addr == ptr + 24
-
-def accessible (s : State) (addr : Nat) : Bool :=
-  inBlock s.cPtr addr || inBlock s.aPtr addr || inBlock s.bPtr addr
-
-def globRead (e : Env) (g : Glob) (off : Nat) : Option Nat :=
+def globRead (e : Env) (g : Glob) (off : Nat) : Option Val :=
   match g with
-  | .p2 => if off % 8 = 0 ∧ off < 32 then some (e.p2 (off / 8)) else none
-  | .np => if off % 8 = 0 ∧ off < 32 then some (e.np (off / 8)) else none
-  | .hasBMI2 => if off = 0 then some (if e.hasBMI2 then 1 else 0) else none
+  | .p2 => if off % 8 = 0 ∧ off < 32 then some (.word (e.p2 (off / 8))) else none
+  | .np => if off % 8 = 0 ∧ off < 32 then some (.word (e.np (off / 8))) else none
+  | .hasBMI2 => if off = 0 then some (.word (if e.hasBMI2 then 1 else 0)) else none
 
-def readOpd (e : Env) (s : State) : Opd → Option Nat
-  | .imm n => if n < W64 then some n else none
+def readOpd (e : Env) (s : State) : Opd → Option Val
+  | .imm n => if n < W64 then some (.word n) else none
   | .reg r => some (s.regs.get r)
   | .mem b off =>
-      let addr := s.regs.get b + off
-      if accessible s addr then some (s.mem addr) else none
+      match s.regs.get b with
+      | .ptr blk => if off % 8 = 0 ∧ off < 32 then some (.word (s.mem (s.alias blk) (off / 8))) else none
+      | .word _ => none
   | .frame off => if off % 8 = 0 then s.frame[off / 8]? else none
   | .arg off =>
-      if off = 0 then some s.cPtr else if off = 8 then some s.aPtr else if off = 16 then some s.bPtr else none
+      if off = 0 then some (.ptr .c) else if off = 8 then some (.ptr .a) else if off = 16 then some (.ptr .b) else none
   | .glob g off => globRead e g off
 
-def writeOpd (s : State) (d : Opd) (v : Nat) : Option State :=
+def writeOpd (s : State) (d : Opd) (v : Val) : Option State :=
   match d with
   | .reg r => some { s with regs := s.regs.set r v }
   | .mem b off =>
-      let addr := s.regs.get b + off
-      if accessible s addr then some { s with mem := fun x => if x = addr then v else s.mem x } else none
+      match s.regs.get b, v with
+      | .ptr blk, .word w =>
+          if off % 8 = 0 ∧ off < 32 then
+            some { s with mem := fun k i => if k = s.alias blk ∧ i = off / 8 then w else s.mem k i }
+          else none
+      | _, _ => none     -- only words are stored into the argument blocks
   | .frame off =>
       if off % 8 = 0 ∧ off / 8 < s.frame.length then some { s with frame := s.frame.set (off / 8) v } else none
   | _ => none    -- immediates, argument slots and package variables are never written
@@ -111,52 +121,48 @@ def step (e : Env) (i : Instr) (s : State) : Outcome :=
       | none => stepFail i
   | .addq src dst =>
       match readOpd e s src, readOpd e s dst with
-      | some x, some y => match writeOpd s dst ((y + x) % W64) with
+      | some (.word x), some (.word y) => match writeOpd s dst (.word ((y + x) % W64)) with
         | some s' => .ok { s' with cf := (y + x) / W64, zf := none }
         | none => stepFail i
       | _, _ => stepFail i
   | .adcq src dst =>
       match readOpd e s src, readOpd e s dst with
-      | some x, some y => match writeOpd s dst ((y + x + s.cf) % W64) with
+      | some (.word x), some (.word y) => match writeOpd s dst (.word ((y + x + s.cf) % W64)) with
         | some s' => .ok { s' with cf := (y + x + s.cf) / W64, zf := none }
         | none => stepFail i
       | _, _ => stepFail i
   | .subq src dst =>
       match readOpd e s src, readOpd e s dst with
-      | some x, some y => match writeOpd s dst ((y + W64 - x) % W64) with
+      | some (.word x), some (.word y) => match writeOpd s dst (.word ((y + W64 - x) % W64)) with
         | some s' => .ok { s' with cf := 1 - (y + W64 - x) / W64, zf := none }
         | none => stepFail i
       | _, _ => stepFail i
   | .sbbq src dst =>
       match readOpd e s src, readOpd e s dst with
-      | some x, some y => match writeOpd s dst ((y + W64 - x - s.cf) % W64) with
+      | some (.word x), some (.word y) => match writeOpd s dst (.word ((y + W64 - x - s.cf) % W64)) with
         | some s' => .ok { s' with cf := 1 - (y + W64 - x - s.cf) / W64, zf := none }
         | none => stepFail i
       | _, _ => stepFail i
   | .mulq src =>
-      match readOpd e s src with
-      | some x =>
-          let pr := s.regs.ax * x
-          .ok { s with regs := (s.regs.set .AX (pr % W64)).set .DX (pr / W64),
-                       cf := if pr / W64 = 0 then 0 else 1, zf := none }
-      | none => stepFail i
+      match readOpd e s src, s.regs.ax with
+      | some (.word x), .word a =>
+          .ok { s with regs := (s.regs.set .AX (.word (a * x % W64))).set .DX (.word (a * x / W64)),
+                       cf := if a * x / W64 = 0 then 0 else 1, zf := none }
+      | _, _ => stepFail i
   | .mulxq src lo hi =>
-      match readOpd e s src with
-      | some x =>
-          let pr := s.regs.dx * x
+      match readOpd e s src, s.regs.dx with
+      | some (.word x), .word d =>
           -- if lo = hi the high half wins (Intel SDM); flags are not touched
-          .ok { s with regs := (s.regs.set lo (pr % W64)).set hi (pr / W64) }
-      | none => stepFail i
+          .ok { s with regs := (s.regs.set lo (.word (d * x % W64))).set hi (.word (d * x / W64)) }
+      | _, _ => stepFail i
   | .cmovqcc src d =>
-      match readOpd e s src with
-      | some x => .ok (if s.cf = 0 then { s with regs := s.regs.set d x } else s)
-      | none => stepFail i
+      match readOpd e s src, s.regs.get d with
+      | some (.word x), .word y => .ok { s with regs := s.regs.set d (.word (if s.cf = 0 then x else y)) }
+      | _, _ => stepFail i
   | .cmpb a b =>
       match readOpd e s a, readOpd e s b with
-      | some x, some y =>
-          let x8 := x % 256
-          let y8 := y % 256
-          .ok { s with cf := if x8 < y8 then 1 else 0, zf := some (x8 == y8) }
+      | some (.word x), some (.word y) =>
+          .ok { s with cf := if x % 256 < y % 256 then 1 else 0, zf := some (x % 256 == y % 256) }
       | _, _ => stepFail i
   | _ => stepFail i
 
@@ -180,9 +186,6 @@ def run (e : Env) (code : List Instr) : Nat → List Instr → State → Outcome
 
 /-- call a function: fresh frame of `f.frame / 8` words holding `junk`, run to RET -/
 def call (e : Env) (f : Func) (s : State) (junk : Nat) : Outcome :=
-  run e f.code (f.code.length + 1) f.code { s with frame := List.replicate (f.frame / 8) junk }
-
-/-- the four words of an argument block -/
-def block (m : Nat → Nat) (ptr : Nat) : List Nat := [m ptr, m (ptr + 8), m (ptr + 16), m (ptr + 24)]
+  run e f.code (f.code.length + 1) f.code { s with frame := List.replicate (f.frame / 8) (.word junk) }
 
 end Dos.Asm
